@@ -1318,7 +1318,7 @@ TEMPLATES = [(_h_memalias, 5), (_h_twice, 3), (_h_twins, 3), (_h_coefmut, 3), (_
 
 
 def generate(rng, tier, scale=1):
-    n = (800 if tier == "quick" else 12000) * scale
+    n = (800 if tier == "quick" else 4500) * scale
     pool = [t for t, wgt in TEMPLATES for _ in range(wgt)]
     out = []
     for i in range(n):
@@ -1327,7 +1327,7 @@ def generate(rng, tier, scale=1):
     # complex histories (entry "ghist": the same templates over Q(i): Gaussian-integer coefficients / samples / memories,
     # complex twins `c + 0j` of int / float / Fraction filters in both orders)
     rcx = __import__("random").Random(rng.random())
-    ncx = (260 if tier == "quick" else 4000) * scale
+    ncx = (260 if tier == "quick" else 1300) * scale
     pool_cx = [t for t, wgt in CX_TEMPLATES for _ in range(wgt)]
     _MODE["cx"] = True
     try:
